@@ -24,21 +24,50 @@ const (
 )
 
 // c07QuotaOf returns the float64(getLimitQuota(param_k.LimitItemDetail, …)) value of fn for
-// parameter index k, or nil.
+// parameter index k, or nil. The conversion may sit in fn or be the single result of a pure
+// helper / local closure called by fn with param_k.LimitItemDetail.
 func c07QuotaOf(fn *ssa.Function, k int) ssa.Value {
 	var out ssa.Value
 	eng.Instrs(fn, func(ins ssa.Instruction) {
-		cv, ok := ins.(*ssa.Convert)
+		v, ok := ins.(ssa.Value)
 		if !ok {
+			return
+		}
+		var env *c07Env
+		cv, isCv := ins.(*ssa.Convert)
+		if call, isCall := ins.(*ssa.Call); isCall && !isCv {
+			// a helper whose only result is the converted quota of its argument
+			callee := call.Call.StaticCallee()
+			if callee == nil {
+				if mc, isMC := call.Call.Value.(*ssa.MakeClosure); isMC {
+					callee, _ = mc.Fn.(*ssa.Function)
+				}
+			}
+			if !eng.Analysable(callee) || callee.Signature.Results().Len() != 1 || len(callee.Params) != len(call.Call.Args) {
+				return
+			}
+			var rets []*ssa.Return
+			eng.Instrs(callee, func(i ssa.Instruction) {
+				if r, isR := i.(*ssa.Return); isR && i.Block() != callee.Recover {
+					rets = append(rets, r)
+				}
+			})
+			if len(rets) != 1 || len(rets[0].Results) != 1 {
+				return
+			}
+			cv, isCv = eng.ReturnResults(rets[0])[0].(*ssa.Convert)
+			env = &c07Env{call: call, callee: callee}
+		}
+		if !isCv {
 			return
 		}
 		cc, _ := eng.CallResultOf(cv.X)
 		if cc == nil || !eng.IsCall(cc, fnGetQuota) {
 			return
 		}
-		root, path := eng.AccessPath(eng.Args(cc)[0])
+		root, path := c07PathOf(eng.Args(cc)[0], env)
 		if root == ssa.Value(fn.Params[k]) && len(path) == 1 && path[0] == "LimitItemDetail" {
-			out = cv
+			out = v
 		}
 	})
 	return out
@@ -64,7 +93,8 @@ func c07(c *eng.Ctx) {
 			if total == nil || allocated == nil || current == nil {
 				c.Fail("R1", fn, "quota operands", fn.Pos(), "total/allocated/current are not read with getLimitQuota from the upstream total, the upstream usage and the instance's configuration")
 			} else {
-				b := eng.NewBounder()
+				// the bounder sees through pure helpers the clamp sequence may have been moved into
+				b := eng.NewBounderIn(fn)
 				f := b.Facts(next)
 				tTotal, tCur, tAlloc := b.TermOf(total), b.TermOf(current), b.TermOf(allocated)
 				one := eng.Num(1)
@@ -107,9 +137,9 @@ func c07(c *eng.Ctx) {
 				} else {
 					c.Fail("R1", fn, "remaining = max(total − allocated, 0)", sink.Pos(), "no growth bound found")
 				}
-				// the sink receives the ceil of the clamped value
-				cc, _ := eng.CallResultOf(next)
-				c.Check("R1", fn, "quota is integral", sink.Pos(), cc != nil && eng.IsCall(cc, "math.Ceil"), "the value converted to int32 by setFlowControlLimit is integral (ceil applied after all clamps)")
+				// the sink receives an integral value: the rounding comes after every adjustment that can
+				// produce a fraction (decided on the value, wherever the math.Ceil sits)
+				c.Check("R1", fn, "quota is integral", sink.Pos(), f.Int, "the value converted to int32 by setFlowControlLimit is integral (ceil applied after all clamps); derived: "+f.String())
 				// burst shape
 				c07Burst(c, fn, sink, burst, next, total)
 			}
@@ -245,56 +275,177 @@ func c07(c *eng.Ctx) {
 	}
 }
 
-// c07Burst checks the shape  burst = ceil(phi(0, next/total*Burst_total))  under total > 0.
+// c07Env is the call through which a helper's body is looked at: the helper's parameters stand
+// for the arguments of that call.
+type c07Env struct {
+	call   *ssa.Call
+	callee *ssa.Function
+	parent *c07Env
+}
+
+// c07Resolve replaces a parameter of the helper entered through env by the argument bound to it.
+func c07Resolve(v ssa.Value, env *c07Env) (ssa.Value, *c07Env) {
+	for env != nil {
+		prm, ok := v.(*ssa.Parameter)
+		if !ok || prm.Parent() != env.callee {
+			break
+		}
+		idx := -1
+		for i, q := range prm.Parent().Params {
+			if q == prm {
+				idx = i
+			}
+		}
+		if idx < 0 || idx >= len(env.call.Call.Args) {
+			break
+		}
+		v, env = env.call.Call.Args[idx], env.parent
+	}
+	return v, env
+}
+
+// c07PathOf is eng.AccessPath continued through helper parameters.
+func c07PathOf(v ssa.Value, env *c07Env) (ssa.Value, []string) {
+	var path []string
+	for i := 0; i < 8; i++ {
+		root, p := eng.AccessPath(v)
+		path = append(append([]string{}, p...), path...)
+		r2, e2 := c07Resolve(root, env)
+		if r2 == root {
+			return root, path
+		}
+		v, env = r2, e2
+	}
+	return v, path
+}
+
+// c07Origin is one of the values a quantity may be: reached through joins, math.Ceil and the
+// returns of pure helpers.
+type c07Origin struct {
+	v    ssa.Value
+	env  *c07Env
+	ceil bool // a math.Ceil is applied on the way to the sink
+}
+
+func c07Origins(v ssa.Value, env *c07Env, ceil bool, depth int, seen map[c07Origin]bool, out *[]c07Origin) {
+	v, env = c07Resolve(v, env)
+	k := c07Origin{v, env, ceil}
+	if seen[k] {
+		return
+	}
+	seen[k] = true
+	switch x := v.(type) {
+	case *ssa.Phi:
+		for _, e := range x.Edges {
+			c07Origins(e, env, ceil, depth, seen, out)
+		}
+		return
+	case *ssa.Call:
+		if eng.IsCall(x, "math.Ceil") {
+			c07Origins(eng.Args(x)[0], env, true, depth, seen, out)
+			return
+		}
+		callee := x.Call.StaticCallee()
+		if depth > 0 && eng.Analysable(callee) && !eng.HasLoop(callee) && callee.Signature.Results().Len() == 1 {
+			n := 0
+			eng.Instrs(callee, func(ins ssa.Instruction) {
+				if r, ok := ins.(*ssa.Return); ok && r.Block() != callee.Recover && len(r.Results) == 1 {
+					n++
+					c07Origins(eng.ReturnResults(r)[0], &c07Env{x, callee, env}, ceil, depth-1, seen, out)
+				}
+			})
+			if n > 0 {
+				return
+			}
+		}
+	}
+	*out = append(*out, k)
+}
+
+// c07GuardedIn reports whether ins — or, when ins sits in a helper entered through env, the call
+// through which the helper was entered (and so on outwards) — executes only under a branch
+// condition satisfying pred.
+func c07GuardedIn(ins ssa.Instruction, env *c07Env, pred func(eng.Rel, *c07Env) bool) bool {
+	for {
+		for _, g := range eng.GuardsOf(ins) {
+			if pred(g.Rel(), env) {
+				return true
+			}
+		}
+		if env == nil {
+			return false
+		}
+		ins, env = env.call, env.parent
+	}
+}
+
+// c07Burst checks that the burst handed to the sink is either 0 or
+// ceil(next/total × global burst), the division evaluated only under total > 0 — wherever the
+// product, the test and the rounding sit (in calculateNextQuota or in a pure helper).
 func c07Burst(c *eng.Ctx, fn *ssa.Function, sink ssa.CallInstruction, burst, next, total ssa.Value) {
-	ok := false
-	detail := "burst is not ceil(next/total × global burst) guarded by total > 0"
-	cc, _ := eng.CallResultOf(burst)
-	if cc != nil && eng.IsCall(cc, "math.Ceil") {
-		inner := eng.Args(cc)[0]
-		var prod *ssa.BinOp
-		zeroElse := true
-		if p, isPhi := inner.(*ssa.Phi); isPhi {
-			for _, e := range p.Edges {
-				if bo, isB := e.(*ssa.BinOp); isB {
-					prod = bo
-				} else if z, isC := eng.IntConst(e); !isC || z != 0 {
-					zeroElse = false
-				}
-			}
-		} else if bo, isB := inner.(*ssa.BinOp); isB {
-			prod = bo
+	var origins []c07Origin
+	c07Origins(burst, nil, false, 2, map[c07Origin]bool{}, &origins)
+	ok := true
+	detail := "burst = ceil(next/total × global burst), next ≤ max(total,1) and total ≥ 1 integral ⇒ burst ≤ global burst"
+	nProd := 0
+	for _, o := range origins {
+		if z, isC := eng.IntConst(o.v); isC && z == 0 {
+			continue // no burst (not a token bucket, or no global limit)
 		}
-		if prod != nil && zeroElse && prod.Op.String() == "*" {
-			var ratio *ssa.BinOp
-			var factor ssa.Value
-			if q, isQ := prod.X.(*ssa.BinOp); isQ && q.Op.String() == "/" {
-				ratio, factor = q, prod.Y
-			} else if q, isQ := prod.Y.(*ssa.BinOp); isQ && q.Op.String() == "/" {
-				ratio, factor = q, prod.X
-			}
-			if ratio != nil && ratio.X == next && ratio.Y == total {
-				// factor = float64(upstreamTotal…TokenBucket.Burst)
-				fromBurst := false
-				if cv, isCv := factor.(*ssa.Convert); isCv {
-					root, path := eng.AccessPath(cv.X)
-					fromBurst = root == ssa.Value(fn.Params[0]) && len(path) > 0 && path[len(path)-1] == "Burst"
-				}
-				guard := eng.GuardedBy(prod, func(r eng.Rel) bool {
-					z, isZ := eng.IntConst(r.Y)
-					return r.X == total && isZ && z == 0 && (r.Op.String() == ">" || r.Op.String() == "!=")
-				})
-				switch {
-				case !fromBurst:
-					detail = "burst is not scaled from the global burst of the upstream total"
-				case !guard:
-					detail = "next/total is evaluated without total > 0: with a zero global limit the burst becomes NaN/Inf and converts to an arbitrary int32"
-				default:
-					ok = true
-					detail = "burst = ceil(next/total × global burst), next ≤ max(total,1) and total ≥ 1 integral ⇒ burst ≤ global burst"
-				}
-			}
+		prod, isB := o.v.(*ssa.BinOp)
+		if !isB || prod.Op != token.MUL {
+			ok, detail = false, "burst is not ceil(next/total × global burst) guarded by total > 0"
+			continue
 		}
+		var ratio *ssa.BinOp
+		var factor ssa.Value
+		if q, isQ := prod.X.(*ssa.BinOp); isQ && q.Op == token.QUO {
+			ratio, factor = q, prod.Y
+		} else if q, isQ := prod.Y.(*ssa.BinOp); isQ && q.Op == token.QUO {
+			ratio, factor = q, prod.X
+		}
+		if ratio == nil {
+			ok, detail = false, "burst is not ceil(next/total × global burst) guarded by total > 0"
+			continue
+		}
+		rx, _ := c07Resolve(ratio.X, o.env)
+		ry, _ := c07Resolve(ratio.Y, o.env)
+		if rx != next || ry != total {
+			ok, detail = false, "burst is not ceil(next/total × global burst) guarded by total > 0"
+			continue
+		}
+		nProd++
+		// factor = float64(upstreamTotal…TokenBucket.Burst)
+		fromBurst := false
+		fv, fenv := c07Resolve(factor, o.env)
+		if cv, isCv := fv.(*ssa.Convert); isCv {
+			root, path := c07PathOf(cv.X, fenv)
+			fromBurst = root == ssa.Value(fn.Params[0]) && len(path) > 0 && path[len(path)-1] == "Burst"
+		}
+		guard := c07GuardedIn(prod, o.env, func(r eng.Rel, env *c07Env) bool {
+			x, _ := c07Resolve(r.X, env)
+			y, _ := c07Resolve(r.Y, env)
+			op := r.Op
+			if _, isK := eng.IntConst(x); isK {
+				x, y, op = y, x, eng.FlipOp(op)
+			}
+			z, isZ := eng.IntConst(y)
+			if x != total || !isZ {
+				return false
+			}
+			return (z == 0 && (op == token.GTR || op == token.NEQ)) || (z >= 0 && op == token.GTR) || (z >= 1 && op == token.GEQ)
+		})
+		switch {
+		case !fromBurst:
+			ok, detail = false, "burst is not scaled from the global burst of the upstream total"
+		case !guard:
+			ok, detail = false, "next/total is evaluated without total > 0: with a zero global limit the burst becomes NaN/Inf and converts to an arbitrary int32"
+		case !o.ceil:
+			ok, detail = false, "burst is not ceil(next/total × global burst) guarded by total > 0"
+		}
+	}
+	if nProd == 0 && ok {
+		ok, detail = false, "burst is not ceil(next/total × global burst) guarded by total > 0"
 	}
 	c.Check("R1", fn, "burst ≤ global burst", sink.Pos(), ok, detail)
 }
@@ -320,6 +471,27 @@ func badOrder(total, allocated, cur, x float64) {
 	if next-cur > rem { next = cur + rem }
 	sink(next)
 }
+func remOf(total, allocated float64) float64 {
+	if allocated >= total { return 0 }
+	return total - allocated
+}
+func tail(x, cur, rem, total float64) float64 {
+	if x-cur > rem { x = cur + rem }
+	if total < x { x = total }
+	if x < 1 { return 1 }
+	return ceil(x)
+}
+func tailBad(x, cur, rem, total float64) float64 {
+	if x < 1 { x = 1 }
+	if x-cur > rem { return cur + rem }
+	return x
+}
+func goodHelper(total, allocated, cur, x float64) {
+	sink(tail(x, cur, remOf(total, allocated), total))
+}
+func badHelper(total, allocated, cur, x float64) {
+	sink(tailBad(x, cur, remOf(total, allocated), total))
+}
 `
 
 func c07Fixtures(c *eng.Ctx) {
@@ -328,10 +500,10 @@ func c07Fixtures(c *eng.Ctx) {
 		c.Fixture("C07.bounds/build", "ok", err.Error())
 		return
 	}
-	for name, want := range map[string]string{"good": "ge1=true cap=true", "badOrder": "ge1=false cap=false"} {
+	for name, want := range map[string]string{"good": "ge1=true cap=true", "badOrder": "ge1=false cap=false", "goodHelper": "ge1=true cap=true", "badHelper": "ge1=false cap=false"} {
 		fn := p.Func(name)
 		call := eng.CallsTo(fn, "fx.sink")[0]
-		b := eng.NewBounder()
+		b := eng.NewBounderIn(fn)
 		f := b.Facts(eng.Args(call)[0])
 		ge1 := f.HasL(func(t *eng.Term) bool { return t.K == eng.TConst && t.C >= 1 })
 		capKey := eng.Bin(eng.TMax, b.TermOf(fn.Params[0]), eng.Num(1)).Key()
